@@ -161,12 +161,90 @@ func (k *concr) msg(ws []string) []byte {
 	return roundTrip(sm)
 }
 
+// multi-node replay (modes sim / c07): the `reset` blocks of one file are the correct operators of ONE schedule; the
+// cross-operator oracles are evaluated on the real objects after all blocks ran.
+type replayNode struct {
+	c        *Case
+	reported []byte
+	hasRep   bool
+	flipped  bool
+	compacts int
+}
+
+func crossOracles(nodes []*replayNode, all []string) []violation {
+	var out []violation
+	if len(nodes) < 2 || (*mode != "sim" && *mode != "c07") {
+		return nil
+	}
+	suffix := ""
+	compacts := 0
+	for _, n := range nodes {
+		compacts += n.compacts
+	}
+	if compacts > 0 {
+		suffix = ":runner-compaction-on-but-invisible"
+		for _, n := range nodes {
+			if n.c.diverged {
+				suffix = ":runner-compaction-visible"
+			}
+		}
+	}
+	add := func(sig, detail string) { out = append(out, violation{sig: sig, detail: detail, replay: all}) }
+	if *mode == "sim" {
+		for i, a := range nodes {
+			if a.flipped {
+				add("C01/decided-value-of-an-honest-operator-changed"+suffix, "replay: DecidedValue of operator "+strconv.Itoa(int(a.c.op))+" changed")
+			}
+			for _, b := range nodes[i+1:] {
+				if a.hasRep && b.hasRep && string(a.reported) != string(b.reported) {
+					add("C01/two-honest-operators-report-different-values"+suffix, "replay: operators "+strconv.Itoa(int(a.c.op))+" and "+strconv.Itoa(int(b.c.op))+" report different values")
+				}
+				ia, ib := a.c.ctrl.StoredInstances.FindInstance(a.c.height), b.c.ctrl.StoredInstances.FindInstance(b.c.height)
+				if ia != nil && ib != nil && ia.State.Decided && ib.State.Decided && string(ia.State.DecidedValue) != string(ib.State.DecidedValue) {
+					add("C01/two-honest-instances-hold-different-decided-values"+suffix, "replay: operators "+strconv.Itoa(int(a.c.op))+" and "+strconv.Itoa(int(b.c.op))+" hold different DecidedValue")
+				}
+			}
+		}
+	} else { // c07: the file is a prefix followed by the constructed continuation; at its end everybody must be decided
+		vals := map[string]bool{}
+		undecided, decided := 0, 0
+		for _, n := range nodes {
+			inst := n.c.ctrl.StoredInstances.FindInstance(n.c.height)
+			if inst != nil && inst.State.Decided {
+				decided++
+				continue
+			}
+			undecided++
+			if inst != nil && inst.State.LastPreparedRound != 0 {
+				vals[string(inst.State.LastPreparedValue)] = true
+			}
+		}
+		if undecided > 0 {
+			cause := ":other"
+			if len(vals) > 1 {
+				cause = ":correct-operators-locked-on-different-values"
+				suffix = ""
+			} else if decided > 0 && uint64(undecided) < nodes[0].c.env.q {
+				cause = ":decided-operators-stop-participating"
+			}
+			add("C07/no-decision-within-f+3-rounds"+cause+suffix, "replay: at the end of the constructed continuation not every correct operator has decided")
+		}
+	}
+	return out
+}
+
 func replay(lines []string) []caseOut {
 	var outs []caseOut
 	var c *Case
 	var k *concr
+	var nodes []*replayNode
+	var cur *replayNode
+	multi := *mode == "sim" || *mode == "c07"
 	flush := func() {
 		if c != nil {
+			if multi {
+				c.viols = nil // per-operator compaction findings only attribute the cross-operator ones
+			}
 			outs = append(outs, finishCase(c, []string{"case/replay"}))
 		}
 	}
@@ -182,6 +260,8 @@ func replay(lines []string) []caseOut {
 			c = newCase(env, spectypes.OperatorID(atou(kvOf(ws, "op"))), specqbft.Height(atou(kvOf(ws, "h"))), nil, ctrl, !ctrl, ctrl)
 			c.c02 = *mode == "c02"
 			k = &concr{c}
+			cur = &replayNode{c: c}
+			nodes = append(nodes, cur)
 			for _, b := range parseIDs(kvOf(ws, "bad")) {
 				c.bad = append(c.bad, k.valBytes(uint64(b)))
 			}
@@ -214,7 +294,18 @@ func replay(lines []string) []caseOut {
 			c.applyCtrlStart(specqbft.Height(atou(kvOf(ws, "h"))), k.valBytes(atou(kvOf(ws, "v"))))
 		case "cdeliver":
 			if enc := k.msg(ws[1:]); enc != nil {
-				c.applyCtrlDeliver(decodeMsg(enc))
+				var before []byte
+				wasDecided := false
+				if inst := c.ctrl.StoredInstances.FindInstance(c.height); inst != nil && inst.State.Decided {
+					wasDecided, before = true, append([]byte{}, inst.State.DecidedValue...)
+				}
+				r := c.applyCtrlDeliver(decodeMsg(enc))
+				if r.retMsg != nil && r.retMsg.Message.Height == c.height && !cur.hasRep {
+					cur.hasRep, cur.reported = true, append([]byte{}, r.retMsg.FullData...)
+				}
+				if inst := c.ctrl.StoredInstances.FindInstance(c.height); inst != nil && wasDecided && string(inst.State.DecidedValue) != string(before) {
+					cur.flipped = true
+				}
 			}
 		case "ctimeout":
 			c.applyCtrlTimeout(specqbft.Height(atou(kvOf(ws, "h"))), specqbft.Round(atou(kvOf(ws, "r"))))
@@ -224,9 +315,17 @@ func replay(lines []string) []caseOut {
 		case "crcompact":
 			if enc := k.msg(ws[1:]); enc != nil {
 				c.applyCtrlRunnerCompact(decodeMsg(enc))
+				cur.compacts++
 			}
 		}
 	}
 	flush()
+	if multi && len(outs) > 0 {
+		var all []string
+		for _, o := range outs {
+			all = append(all, o.lines...)
+		}
+		outs[0].viols = append(outs[0].viols, crossOracles(nodes, all)...)
+	}
 	return outs
 }
